@@ -14,7 +14,10 @@ handle -1 is ``Interface``, handle -2 is ``implementedBy(object)``.
   {"op": "super",   "cls": h, "this": h, "via": ..} implementedBy(super(T, C)) / providedBy(super(T, C())),
                                                     kept by the driver like any other specification
   {"op": "classimpl", "cls": h, "ifaces": [h..]}    classImplements(C, *ifaces)  (no new handle)
-  {"op": "setbases", "node": h, "bases": [h..]}     X.__bases__ = (...)          (no new handle)
+  {"op": "setbases", "node": h, "bases": [h..]}     X.__bases__ = (...)          (no new handle); with
+       "reactor": {"on": h, "node": h, "bases": [h..]}  a dependent subscribed to `on` through the public
+                                                    subscribe() whose changed() assigns node.__bases__ once,
+                                                    from inside the propagation of the outer assignment
   {"op": "drop", "node": h}                         forget every reference, gc   (no new handle)
 
 Output per case: {"steps": [step..]} or {"exc": "...", "steps": [...so far]}; a step is
@@ -36,6 +39,19 @@ import zope.interface.declarations as D
 from zope.interface import ro as RO
 
 COUNTER = [0]
+
+
+class Reactor:
+    def __init__(self, world, target, bases):
+        self.world, self.target, self.bases, self.armed = world, target, bases, True
+
+    def changed(self, originally_changed):
+        if not self.armed:
+            return
+        self.armed = False
+        self.target.__bases__ = self.bases
+        w = self.world
+        w.pending.append(["set", w.ids[id(self.target)], [w.ids[id(b)] for b in self.target.__bases__]])
 
 
 class World:
@@ -232,8 +248,22 @@ class World:
             spec = self.h(op["node"])
             node = self.ids[id(spec)]
             self.prime_for_rebase(node, [self.ids[id(self.h(b))] for b in op["bases"]])
+            at = len(self.pending)
+            self.pending.append(None)
+            reactor = None
+            if "reactor" in op:
+                # a dependent registered through the public subscribe() hook that, the first time it
+                # hears of a change, assigns the __bases__ of another specification (a nested
+                # propagation inside the running one)
+                r = op["reactor"]
+                reactor = Reactor(self, self.h(r["node"]), tuple(self.h(b) for b in r["bases"]))
+                on = self.h(r["on"])
+                on.subscribe(reactor)
             spec.__bases__ = tuple(self.h(b) for b in op["bases"])
-            self.pending.append(["set", node, [self.ensure(b) for b in spec.__bases__]])
+            self.pending[at] = ["set", node, [self.ensure(b) for b in spec.__bases__]]
+            if reactor is not None:
+                on.unsubscribe(reactor)
+                reactor.armed = False
         elif kind == "drop":
             hd = op["node"]
             node = self.handles[hd]
